@@ -59,6 +59,16 @@ CLAIMED = {
    text="Decides necessary conditions of the ordered-map behaviour: get, upsert and delete take Left exactly on Compare outcome 1, Right on -1 and hit otherwise, traverse emits Left, node, Right (AG3); every return of delete hands back n, or a child while the other is known nil, or nil while both are known nil, and recursion results are stored back into the field descended through (PT3 no subtree lost); the two-child case copies key and value of one min() node of the right subtree and deletes that key there (PV2); each size increment sits with linking NewNode(key,val) into a slot known nil, the decrement must follow err == nil (AG4; one known finding); values/links are written only at nodes reached by the descent (AG1); the container has no state beyond {mu, comp, root, size} (SI1). Results of concrete histories are not decided.",
    note="Trusted: go/ssa; Compare's contract (1 iff comp(a,b), -1 iff comp(b,a)); strict-ordering comparator. Known finding: Delete decrements size for absent keys (pinned Example requires it).",
    ref="DESIGN.md section 3 E7, section 4 C04"),
+ "C05": dict(
+   technique="end-agreement rules over access paths, non-empty-guard dominance, call counting, counter discipline, who-may-call and state inventory on go/ssa over queue/*.go and the list primitives used",
+   text="Slice-backed Queue: Enqueue stores append(items, item) exactly once on every path, Dequeue returns items[0] and stores items[1:], Peek reads items[0], all under the non-empty guard; the empty path returns the zero value and an error and writes nothing; Search is a full forward scan; Size is len(items); Clear stores nil; nothing else writes items - with Go's append/re-slice semantics this is FIFO behaviour of the slice-backed queue. Linked LQueue: n incremented exactly once with one Append(item), decremented once with one Shift only where n is known positive, empty path untouched; Peek reads First; positional list primitives never compare element values, observers write nothing; no untracked state (SI1). The delivery order of the linked variant is not decided.",
+   note="Trusted: go/ssa, Go append/re-slice semantics; locking is C01/C02.",
+   ref="DESIGN.md section 3 E7 (AG6, AG4), section 4 C05/C06"),
+ "C06": dict(
+   technique="end-agreement rules over access paths, non-empty-guard dominance, call counting, counter discipline, who-may-call and state inventory on go/ssa over stack/*.go and the list primitives used",
+   text="Slice-backed Stack: Push stores append(items, item) exactly once on every path, Pop returns items[len-1] and stores items[:len-1], Peek reads items[len-1], all under the non-empty guard; the empty path returns the zero value and writes nothing; Search is a full forward scan; Size is len(items); nothing else writes items - with Go's append/re-slice semantics this is LIFO behaviour of the slice-backed stack. Linked LStack: n incremented exactly once with one Append(item), decremented at most once only where n is known positive, with one list Pop; Peek reads Last; positional list primitives never compare element values, observers write nothing; no untracked state (SI1). The value handed back by the linked variant's Pop is not decided.",
+   note="Trusted: go/ssa, Go append/re-slice semantics; locking is C01/C02.",
+   ref="DESIGN.md section 3 E7 (AG6, AG4), section 4 C05/C06"),
 }
 
 NOT_YET = "check not built yet (static-analysis engines under construction; see DESIGN.md section 7)"
